@@ -199,6 +199,22 @@ example :
 example :
     (runRequest { samplePlan with acts := [.acquire], out := .ok }).held 0 = 1 := by decide
 
+/-- a FILE session cannot take a second lock on its own path: with `lock_timeout` the redundant
+    `acquire_lock()` ends in LockTimeout, the handler dies, and `close` releases the one lock -/
+example :
+    (runRequest { samplePlan with file := true, acts := [.touch, .acquire], out := .ok }).journal
+      = [('H', true, 1), ('B', true, 1), ('E', false, 0)] := by decide
+
+/-- explicit mode, the handler never releases: `sessions.save` does -/
+example :
+    (runRequest { samplePlan with mode := .explicit, acts := [.acquire, .touch], out := .ok, bf := [], eer := [] }).journal
+      = [('H', false, 0), ('B', false, 0), ('E', false, 0)] := by decide
+
+/-- explicit mode, release without acquire: `release_lock` raises, nothing is held at any time -/
+example :
+    (runRequest { samplePlan with mode := .explicit, acts := [.release], out := .ok }).journal
+      = [('H', false, 0), ('B', false, 0), ('E', false, 0)] := by decide
+
 end
 
 end CpProofs.C13
